@@ -115,6 +115,8 @@ class MainstreamOrigin(Origin[VarType]):
         if engine is None:
             engine = get_current_engine()
 
+        # (re)initialized states invalidate the next states computed from the old ones
+        self.next_states = None
         self.states: dict[str, VarType] = {
             "w": init_conditions["w"]
             if "w" in init_conditions
@@ -281,6 +283,8 @@ class MeteredOnRamp(Origin[VarType]):
         if engine is None:
             engine = get_current_engine()
 
+        # (re)initialized states invalidate the next states computed from the old ones
+        self.next_states = None
         self.states: dict[str, VarType] = {
             "w": init_conditions["w"]
             if "w" in init_conditions
